@@ -29,10 +29,11 @@ type CCR struct {
 	Both   bool    `json:"both,omitempty"`   // carry requested and used service units both
 	Used   *uint64 `json:"used,omitempty"`   // with Both: the used service units differ from the requested ones (a reservation and a refund state their amount as requested units, a termination debit as used units)
 	IdType int     `json:"idType,omitempty"` // Subscription-Id-Type (0 E164, 1 IMSI, 2 SIP URI, 3 NAI, 4 PRIVATE); only IMSI names an account
+	Fault  string  `json:"fault,omitempty"`  // the database fails during this request: "read" (the lookup returns an error) | "write-applied" (the balance is written, the write is reported as failed)
 }
 
 type C07Case struct {
-	Odd string `json:"odd,omitempty"` // stored balance text of one more account (requests with acct -6 go to it)
+	Odd    string  `json:"odd,omitempty"`    // stored balance text of one more account (requests with acct -6 go to it)
 	ZeroRG bool    `json:"zeroRG,omitempty"` // the accounts' rating groups are 0, 1, 2 (and the requests carry a Service-Identifier that is not the rating group)
 	BigRG  bool    `json:"bigRG,omitempty"`  // the accounts' rating groups are 2^31-1, 2^31, ... (Unsigned32 on the wire) instead of 1, 2, ...
 	Bal    []int64 `json:"bal"`              // initial balance per account
@@ -89,6 +90,9 @@ func genC07(t *rapid.T) C07Case {
 		if r.Both && rapid.Bool().Draw(t, "usedDiffers") {
 			u := rapid.SampledFrom([]uint64{0, 1, 7, 120, 500, 5000}).Draw(t, "used")
 			r.Used = &u
+		}
+		if !long && r.Acct >= 0 && rapid.IntRange(0, 9).Draw(t, "dbFault") == 0 {
+			r.Fault = rapid.SampledFrom([]string{"read", "write-applied"}).Draw(t, "fault")
 		}
 		r.IdType = 1
 		if !long && rapid.IntRange(0, 7).Draw(t, "otherIdType") == 0 {
@@ -256,7 +260,18 @@ func judgeC07(c C07Case) *h.Verdict {
 		if idx < 0 {
 			wait = 40 * time.Millisecond
 		}
+		switch {
+		case r.Fault == "read" && idx >= 0:
+			// nothing can be granted or booked when the account cannot be read
+			env.FM.FailNextFind(1)
+			wait = 150 * time.Millisecond
+		case r.Fault == "write-applied" && idx >= 0:
+			// the write happened: the request is booked once, whatever the database says about it
+			env.FM.FailNextUpdateApplied(1)
+		}
 		ans, err := abmfPeer.Do(msg, wait)
+		env.FM.FailNextFind(0)
+		env.FM.FailNextUpdateApplied(0)
 		if err != nil {
 			abmfPeer = nil
 			return v.Failf("HARNESS-io", "%v", err)
@@ -264,6 +279,28 @@ func judgeC07(c C07Case) *h.Verdict {
 		desc := fmt.Sprintf("step %d: CCR action %d type %d amount %d for account %d (model balance %d)", step, r.Action, r.Type, amount, idx, model[idx])
 		if idx == -3 {
 			v.NT("other-subscription-id-type")
+		}
+		if r.Fault == "read" && idx >= 0 {
+			v.NT("database-read-fails")
+			if ans != nil {
+				var cca cdt.AccountDebitResponse
+				if ans.Unmarshal(&cca) == nil && cca.MultipleServicesCreditControl != nil && cca.MultipleServicesCreditControl.GrantedServiceUnit != nil && cca.MultipleServicesCreditControl.GrantedServiceUnit.CCTotalOctets != 0 {
+					return v.Failf("grant-without-reading-the-account", "%s: the account could not be read (database error), yet %d units were granted", desc, cca.MultipleServicesCreditControl.GrantedServiceUnit.CCTotalOctets)
+				}
+				if ans.Unmarshal(&cca) == nil && cca.MultipleServicesCreditControl != nil && uint32(cca.MultipleServicesCreditControl.RatingGroup) != uint32(rg) {
+					return v.Failf("echo/rating-group-after-database-error", "%s: the answer names rating group %d, the request was for %d", desc, cca.MultipleServicesCreditControl.RatingGroup, rg)
+				}
+			}
+			for i, a := range accts {
+				q, _ := env.Quota64(a.supi, a.rg)
+				if q != before[i] {
+					return v.Failf("balance-changes-although-the-account-could-not-be-read", "%s: balance of account %d changed from %d to %d", desc, i, before[i], q)
+				}
+			}
+			continue
+		}
+		if r.Fault == "write-applied" && idx >= 0 {
+			v.NT("database-write-applied-but-reported-failed")
 		}
 		if idx == -6 {
 			// nothing can be granted from, or booked on, a balance that cannot be read; the stored text stays
